@@ -218,17 +218,18 @@ def masses(name):
             for i, w in enumerate(W):
                 attr[i] = w
             inverse = sx.flag("inverse")
-            tag = " [%s%s]" % (name, ", inverse" if inverse else "")
+            sq = sx.flag("sqrt")
+            tag = " [%s%s%s]" % (name, ", inverse" if inverse else "", ", sqrt" if sq else "")
             E = [tuple(int(x) for x in e) for e in mesh.edges]
             total = sum(W)
             with _stubs(sx, Mm):
                 try:
                     if vol:
-                        mv = Mm.volume_weight_matrix(mesh, inverse=inverse)
-                        mc = Mm.volume_weight_matrix_cells(mesh, inverse=inverse)
+                        mv = Mm.volume_weight_matrix(mesh, inverse=inverse, sqrt=sq)
+                        mc = Mm.volume_weight_matrix_cells(mesh, inverse=inverse, sqrt=sq)
                         me = None
                     else:
-                        mv = Mm.area_weight_matrix(mesh, inverse=inverse)
+                        mv = Mm.area_weight_matrix(mesh, inverse=inverse, sqrt=sq)
                         mc = Mm.area_weight_matrix_faces(mesh, inverse=inverse)
                         me = Mm.area_weight_matrix_edges(mesh, inverse=inverse)
                 except ZeroDivisionError:
@@ -237,21 +238,29 @@ def masses(name):
                     sx.check(False, "mass matrix assembly raised" + tag, detail=repr(e))
                     return
             inv = (lambda x: 1 / x) if inverse else (lambda x: x)
+
+            def mass_eq(got, want, label, with_sqrt):
+                # A, A^-1, A^1/2 or A^-1/2 (the square of a positive entry is compared when the root was asked for)
+                if with_sqrt:
+                    sx.check(got > 0, "mass matrix entries are positive" + tag)
+                    sx.check_eq(got * got, inv(want), label + tag, tol=1e-9)
+                else:
+                    sx.check_eq(got, inv(want), label + tag, tol=1e-9)
             shape, e = _entries(mv)
             sx.check(shape == (V, V) and all(i == j for (i, j) in e), "lumped vertex mass matrix is diagonal" + tag)
             tot = 0
             for v in range(V):
                 want = sum(W[i] for i, el in enumerate(elems) if v in el)
-                sx.check_eq(e.get((v, v), 0), inv(want), "vertex mass is the sum of the incident element measures" + tag, tol=1e-9)
+                mass_eq(e.get((v, v), 0), want, "vertex mass is the sum of the incident element measures", sq)
                 sx.check(e.get((v, v), 0) > 0, "mass matrix entries are positive" + tag)
                 tot = tot + want
-            if not inverse:
+            if not inverse and not sq:
                 sx.check_eq(sum(e.get((v, v), 0) for v in range(V)), len(elems[0]) * total,
                             "vertex masses sum to (vertices per element) times the total measure" + tag, tol=1e-9)
             shape, e = _entries(mc)
             sx.check(shape == (len(elems), len(elems)) and all(i == j for (i, j) in e), "element mass matrix is diagonal" + tag)
             for i in range(len(elems)):
-                sx.check_eq(e.get((i, i), 0), inv(W[i]), "element mass is the element's measure" + tag, tol=1e-9)
+                mass_eq(e.get((i, i), 0), W[i], "element mass is the element's measure", sq and vol)
             if me is not None:
                 shape, e = _entries(me)
                 he = oracle.half_edges(elems)
